@@ -267,7 +267,7 @@ def run(ctx):
     for (N, l, r_) in lr:
         ctx.traces(1)
         if not (-1 <= l < r_ <= N):
-            ctx.violation("C07:expectations:coverage", f"fast path used cached environments up to l_idx={l} and from r_idx={r_} on {N} sites: a site is covered twice or never", {"N": N, "l": l, "r": r_})
+            ctx.drift("C07:expectations:coverage", f"fast path used cached environments up to l_idx={l} and from r_idx={r_} on {N} sites: a site is covered twice or never", {"N": N, "l": l, "r": r_})
     ctx.notes["fast_path_lookups_checked"] = len(lr)
     res = pmap(_rdm_chunk, [(ctx.seed, k, tier) for k in range(16 if tier == "quick" else 64)], chunksize=1)
     for st_, o in res:
